@@ -7,7 +7,7 @@
    outside the lock, the iterator closure touching bs.keys / bs.blks again)
    changes Gen_Locks.v and makes this file fail to compile.
    execute_table (server.Execute) is C09's; it is not referenced here. *)
-From Ucanto Require Import Base Conc.
+From Ucanto Require Import Base Conc Blockstore.
 From UcantoGen Require Import Gen_Locks.
 Open Scope N_scope.
 
@@ -54,5 +54,9 @@ Theorem blockstore_accesses_within_model :
   accesses_within [(bs_var_blks, false)] bs_op_Get = true /\
   accesses_within [(bs_var_keys, false); (bs_var_blks, false)] bs_op_Iterator = true.
 Proof. vm_compute. repeat split. Qed.
+
+(* the variable numbering used by Blockstore.next_acc is the extractor's *)
+Theorem blockstore_var_numbering : bs_var_keys = Blockstore.v_keys /\ bs_var_blks = Blockstore.v_blks.
+Proof. split; reflexivity. Qed.
 
 Print Assumptions blockstore_race_free.
